@@ -1,5 +1,5 @@
 """C26 -- dif/2, freeze/2 and when/2 are insensitive to posting order."""
-import collections, itertools, json
+import collections, itertools, json, time
 from vlib import core, terms
 
 META = {
@@ -38,6 +38,9 @@ META = {
 }
 
 IMPORTS = "From V Require Import Base.Term C10.Model C26.Model."
+KEY_PROBE = "dif-posting-executes-suspended-goals"
+KEY_ALIAS = "when-goal-duplicated-by-aliasing"
+KEY_DUPDIF = "when-goal-duplicated-when-shared-dif-is-resolved"
 
 V = lambda n: ("var", n)
 A = lambda s: ("atom", s)
@@ -175,9 +178,9 @@ def reaches_occurs_check(seq):
 # ------------------------------------------------------------------ generator
 def gen_histories(ctx):
     rng = ctx.rng
-    n_small = ctx.scale(1100, 9000)
-    n_five = ctx.scale(40, 500)
-    n_decide = ctx.scale(40, 200)
+    n_small = ctx.scale(700, 9000)
+    n_five = ctx.scale(25, 500)
+    n_decide = ctx.scale(25, 200)
     out, seen, skipped = [], set(), 0
 
     def draw(n, decide=False):
@@ -328,10 +331,15 @@ def probe_eligible(seq):
     return any(o[0] == "dif" and terms.term_vars(C("p", o[1], o[2])) for o in seq) and any(o[0] in ("freeze", "when") for o in seq)
 
 
-def alias_ids(seq):
-    """when-goals over >= 2 variables in a history that aliases two variables"""
-    if not any(o[0] == "unify" and o[1][0] == "var" and o[2][0] == "var" for o in seq): return []
-    return [i + 1 for i, o in enumerate(seq) if o[0] == "when" and len(cond_vars(o[1])) >= 2]
+def dup_ids(seq):
+    """when-goals over >= 2 variables (they are attached to each of their variables) and the known trigger present in the history:
+    two variables are aliased, or a dif over two variables is there while a variable is bound to a compound term with a variable"""
+    ids = [i + 1 for i, o in enumerate(seq) if o[0] == "when" and len(cond_vars(o[1])) >= 2]
+    if not ids: return [], None
+    if any(o[0] == "unify" and o[1][0] == "var" and o[2][0] == "var" for o in seq): return ids, KEY_ALIAS
+    if (any(o[0] == "dif" and len(terms.term_vars(C("p", o[1], o[2]))) >= 2 for o in seq) and
+            any(o[0] == "unify" and o[2][0] == "cmp" and terms.term_vars(o[2]) for o in seq)): return ids, KEY_DUPDIF
+    return [], None
 
 
 def multiset_le(a, b):
@@ -355,15 +363,13 @@ def repair(o, seq, probe, alias):
         if not probe_eligible(seq) or not multiset_le(l, g) or g == l: return None
         g = l
     if alias:
-        ids = set(alias_ids(seq))
+        ids = set(dup_ids(seq)[0])
         g2, l2, w2 = dedupe(g, ids), dedupe(l, ids), dedupe(w, ids)
         if not ids or (g2, l2, w2) == (g, l, w): return None
         g, l, w = g2, l2, w2
     return ("ok", b, g, l, w, d)
 
 
-KEY_PROBE = "dif-posting-executes-suspended-goals"
-KEY_ALIAS = "when-goal-duplicated-by-aliasing"
 WHAT = {
     KEY_PROBE: ("posting dif/2 (or re-posting it when one of its variables is bound) tests unifiability with \\=/2, which binds the "
                 "variables speculatively and so EXECUTES the goals suspended on them by freeze/2 or when/2; the bindings are undone "
@@ -372,6 +378,9 @@ WHAT = {
     KEY_ALIAS: ("when/2 attaches a goal whose condition mentions two variables to both; unifying the two variables appends the two "
                 "when_list attributes without removing the duplicate, so the goal is listed twice in the residual goals and runs "
                 "twice when the condition becomes true, whereas posting after the aliasing runs it once"),
+    KEY_DUPDIF: ("a when/2 goal over two variables X,Y is listed twice in the residual goals (and runs twice later) after X is bound to a "
+                 "compound term containing Y while a dif/2 constraint over both X and Y is resolved by the same binding, e.g. "
+                 "dif(X,g(Y)), when(ground(X-Y),G), X=f(Y); posting the when/2 before the dif/2, or after the binding, lists it once"),
 }
 
 
@@ -385,7 +394,9 @@ def run(ctx):
         lg = "lg%d" % j
         jobs.append({"id": "h%d" % j, "consult": consult_text(lg), "queries": [query_text(seq, p, lg) for p in perms],
                      "max_answers": 2, "timeout_ms": 10000})
+    t0 = time.time()
     res = core.vrun_query(ctx.prop, jobs, tag="perms")
+    t_impl = time.time() - t0
 
     failures, tie_breaks, samples = [], [], []
     dist = collections.Counter()
@@ -425,17 +436,17 @@ def run(ctx):
 
     qv = "[0%N; 1%N; 2%N]"
     exprs = ["check_obs %s %s %s" % (qv, seq_coq(hist[j]), obs_coq(classes[j][k][0])) for j, k in cases]
-    bad, errors = core.coq_eval_bools(ctx.prop, IMPORTS, exprs, chunk=500, tag="judge")
-    for sh, e in errors:
-        tie_breaks.append({"kind": "coq-eval", "what": "a shard of model evaluations was rejected by coqc", "detail": str(e)[-1500:]})
-
-    # verdicts of the model for the distribution and the non-triviality count
+    # verdicts of the model for the distribution and the non-triviality count (evaluated in the same pass)
     vexprs = []
     for c in (0, 1):
         vexprs += ["N.eqb (verdict %s %s) %d" % (qv, seq_coq(seq), c) for seq in hist if DECIDE not in seq]
-    vbad, verr = core.coq_eval_bools(ctx.prop, IMPORTS, vexprs, chunk=600, tag="verdict")
-    for sh, e in verr:
-        tie_breaks.append({"kind": "coq-eval", "what": "a shard of verdict evaluations was rejected by coqc", "detail": str(e)[-1500:]})
+    t1 = time.time()
+    allbad, errors = core.coq_eval_bools(ctx.prop, IMPORTS, exprs + vexprs, chunk=500, tag="judge")
+    t_judge = time.time() - t1
+    for sh, e in errors:
+        tie_breaks.append({"kind": "coq-eval", "what": "a shard of model evaluations was rejected by coqc", "detail": str(e)[-1500:]})
+    bad = [i for i in allbad if i < len(exprs)]
+    vbad = [i - len(exprs) for i in allbad if i >= len(exprs)]
     nplain = len(vexprs) // 2
     vb = set(vbad)
     plain = [seq for seq in hist if DECIDE not in seq]
@@ -457,16 +468,25 @@ def run(ctx):
             if o2 is not None:
                 rindex.append((j, k, name))
                 rexprs.append("check_obs %s %s %s" % (qv, seq_coq(hist[j]), obs_coq(o2)))
-        for comp in ("chk_success", "chk_binds", "chk_glog", "chk_blog", "chk_waiting", "chk_difs"):
-            rindex.append((j, k, comp))
-            rexprs.append("%s %s %s %s" % (comp, qv, seq_coq(hist[j]), obs_coq(o)))
+    t2 = time.time()
     rbad, rerr = core.coq_eval_bools(ctx.prop, IMPORTS, rexprs, chunk=600, tag="classify") if rexprs else ([], [])
+    t_classify = time.time() - t2
     for sh, e in rerr:
         tie_breaks.append({"kind": "coq-eval", "what": "a shard of classification evaluations was rejected by coqc", "detail": str(e)[-1500:]})
     rb = set(rbad)
     verdicts = collections.defaultdict(dict)
     for i, (j, k, name) in enumerate(rindex):
         verdicts[(j, k)][name] = i not in rb
+    # disagreements that no repair explains: which components of the observation differ (a small third pass)
+    COMPS = ("chk_success", "chk_binds", "chk_glog", "chk_blog", "chk_waiting", "chk_difs")
+    unexpl = [(j, k) for (j, k) in badcases if not any(verdicts[(j, k)].get(n) for n in ("probe", "alias", "both"))]
+    cexprs = ["%s %s %s %s" % (comp, qv, seq_coq(hist[j]), obs_coq(classes[j][k][0])) for (j, k) in unexpl[:100] for comp in COMPS]
+    cbad, cerr = core.coq_eval_bools(ctx.prop, IMPORTS, cexprs, chunk=300, tag="components") if cexprs else ([], [])
+    for sh, e in cerr:
+        tie_breaks.append({"kind": "coq-eval", "what": "a shard of component evaluations was rejected by coqc", "detail": str(e)[-1500:]})
+    for i, (j, k) in enumerate(unexpl[:100]):
+        for c, comp in enumerate(COMPS):
+            verdicts[(j, k)][comp] = (i * len(COMPS) + c) not in set(cbad)
     by_key = {}
     badset = set(badcases)
     spec_needed = []
@@ -475,8 +495,8 @@ def run(ctx):
         o, ps = classes[j][k]
         seq = hist[j]
         if v.get("probe"): keys = [KEY_PROBE]
-        elif v.get("alias"): keys = [KEY_ALIAS]
-        elif v.get("both"): keys = [KEY_PROBE, KEY_ALIAS]
+        elif v.get("alias"): keys = [dup_ids(seq)[1]]
+        elif v.get("both"): keys = [KEY_PROBE, dup_ids(seq)[1]]
         else:
             wrong = [c[4:] for c in ("chk_success", "chk_binds", "chk_glog", "chk_blog", "chk_waiting", "chk_difs") if not v.get(c, True)]
             keys = ["unexplained:%s:%s" % ("+".join(wrong), seq_text(seq))]
@@ -516,4 +536,5 @@ def run(ctx):
             "rule": ("histories = multisets of 1..4 (and a sample of 5) operations over X,Y,Z drawn from %d posts and %d unifications; EVERY permutation of every "
                      "history is run on the implementation (evaluations = permutations run); each distinct behaviour of a history is judged in Coq against "
                      "the denotation; non-trivial = distinct histories (as multisets) with at least one unification and one post, so that order can matter" % (len(POSTS) + 1, len(UNIFS))),
+            "notes": ["implementation %.1fs, model judgement %.1fs (%d expressions), classification %.1fs (%d expressions)" % (t_impl, t_judge, len(exprs) + len(vexprs), t_classify, len(rexprs))],
             "samples": samples, "distribution": dict(dist), "failures": failures, "tie_breaks": tie_breaks}
